@@ -137,6 +137,7 @@ def eng_limbcov(f, sub, prop):
     limbcov.run_limbseq(f, sub, prop, flt)
     limbcov.run_widecov(f, sub, prop, flt)
     limbcov.run_slicehead(f, sub, prop, flt)
+    limbcov.run_argswap(f, sub, prop, flt)
     if prop in ("C05", "C18"):
         if limbcov.run_fullwrite(f, sub, prop) < 10:
             sub.oblige(ok=False)
